@@ -77,7 +77,7 @@ def check_q(ck, P, ref, kind, alg, reps):
 def cases(seed, n, tier):
     # a batch of small, deeply singular problems (defect 3-4, proper regularisation subsets): the pivoting and
     # Gram-Schmidt steps of the regularisation are only exercised by defects >= 2-3
-    for i in range(n, n + (150 if tier != "thorough" else 3000)):
+    for i in range(n, n + (150 if tier != "thorough" else 2500)):
         rng = np.random.default_rng([seed, i, 304])
         nn = int(rng.integers(6, 11))
         yield i, lsq.gen_problem(rng, n_max=nn, m_max=nn + 6, force=dict(
@@ -177,7 +177,7 @@ def run(tier, seed, only=None):
                "random adjustment problems as in C01 x 4 algorithms x {Adj, bare solver}: the full matrices q_xx "
                "(both triangles, so pairs outside the envelope are always included) and q_bb are requested; class = "
                "(entry, algorithm, singular?, covariance kind, subset kind, pattern)")
-    n = tier_n(tier, 120, 5000)
+    n = tier_n(tier, 120, 1500)
     items, info = [], []
     for i, P in cases(seed, n, tier):
         if only is not None and i != only:
